@@ -30,6 +30,10 @@ type Engine struct {
 	Expressed []Expressed
 	Mgmt      []MgmtCall
 	OnExpress func(e Expressed) // optional hook, called outside the lock
+	// MgmtFail, when set, decides for the n-th ExecMgmtCmd invocation (from 0) whether the forwarder
+	// refuses it; refused invocations are not recorded in Mgmt
+	MgmtFail func(n int, call MgmtCall) error
+	nMgmt    int
 }
 
 func NewEngine(t *Timer) *Engine {
@@ -80,9 +84,23 @@ func (e *Engine) UnregisterRoute(prefix enc.Name) error { return nil }
 
 func (e *Engine) ExecMgmtCmd(module string, cmd string, args any) error {
 	e.mu.Lock()
+	defer e.mu.Unlock()
+	n := e.nMgmt
+	e.nMgmt++
+	if e.MgmtFail != nil {
+		if err := e.MgmtFail(n, MgmtCall{module, cmd, args}); err != nil {
+			return err
+		}
+	}
 	e.Mgmt = append(e.Mgmt, MgmtCall{module, cmd, args})
-	e.mu.Unlock()
 	return nil
+}
+
+// MgmtCalls returns a copy of the accepted management invocations and the number of invocations made.
+func (e *Engine) MgmtCalls() ([]MgmtCall, int) {
+	e.mu.Lock()
+	defer e.mu.Unlock()
+	return append([]MgmtCall{}, e.Mgmt...), e.nMgmt
 }
 
 // TakeExpressed returns and clears the captured Interests.
